@@ -409,6 +409,7 @@ func runForced(kind string, in []string, scale int) []string {
 	} else {
 		prefixS, opsS, sched = in[1], in[2], in[3]
 	}
+	expectBlock := strings.HasSuffix(sched, "!")
 	sched = strings.TrimSuffix(sched, "!")
 	prefix, ops := parseOps(prefixS), parseOps(opsS)
 	wait := baseWait * time.Duration(scale)
@@ -539,6 +540,71 @@ func runForced(kind string, in []string, scale int) []string {
 		c.mu.Unlock()
 	}
 
+	// The model said the last pick must block, the implementation went on: a lock / rendezvous was bypassed.
+	// Complete the run under control (lowest-numbered party that can move, one at a time) so that the
+	// linearizability oracle can judge what the bypass led to.
+	if expectBlock && status == "" {
+		step := len(sched)
+		for guard := 0; guard < 400; guard++ {
+			c.mu.Lock()
+			cand := []int{}
+			if pt := c.parties[enfParty]; pt != nil && pt.state == stParked {
+				cand = append(cand, enfParty)
+			}
+			for i := 0; i < n; i++ {
+				if st := c.parties[i].state; st == stParked || st == stNew {
+					cand = append(cand, i)
+				}
+			}
+			c.mu.Unlock()
+			if len(cand) == 0 {
+				break
+			}
+			moved := false
+			for _, p := range cand {
+				c.mu.Lock()
+				pt := c.parties[p]
+				if pt.state == stNew {
+					pt.state = stRunning
+					starts[p] = step
+					close(startCh[p])
+				} else {
+					pt.state = stRunning
+					close(pt.release)
+				}
+				c.mu.Unlock()
+				if c.waitUntil(wait, settled(p)) {
+					moved = true
+					c.mu.Lock()
+					for q, id := range c.addID {
+						if q >= 0 && q < n {
+							e.learn(ops[q].tag, id)
+						}
+					}
+					if p >= 0 && c.parties[p].state == stFinished && ends[p] < 0 {
+						ends[p] = step
+					}
+					c.mu.Unlock()
+					step++
+					break
+				}
+				// p is blocked for now; it keeps running and will settle once its partner moves
+				step++
+			}
+			if !moved {
+				break
+			}
+		}
+		c.mu.Lock()
+		for i := 0; i < n; i++ {
+			if c.parties[i].state == stFinished && ends[i] < 0 {
+				ends[i] = step
+			}
+		}
+		c.mu.Unlock()
+		status = "bypassed"
+	}
+
 	// drain: everything runs freely to the end
 	allFinished := func() bool {
 		for i := 0; i < n; i++ {
@@ -564,7 +630,10 @@ func runForced(kind string, in []string, scale int) []string {
 			status = "unfinished"
 		}
 	}
-	if status != "fin" {
+	if status == "bypassed" && !(done && !neverStarted && c.enfQuiet()) {
+		status = "unfinished"
+	}
+	if status != "fin" && status != "bypassed" {
 		// results of unfinished operations are not observations of this schedule
 		c.mu.Lock()
 		snap := append([]string(nil), results...)
